@@ -262,6 +262,49 @@ def history_shard(binpath, seed, sh):
     return res
 
 
+def concurrent_runs(binpath, seed, sh):
+    """two verifications overlapping in ONE process (two threads): a long one (its inspection sleeps) is under way since
+    before a second layout's expiry; the second layout is verified after its expiry, while the first call is still
+    running.  Each call reads the clock for itself: what another call saw of the time is none of its business."""
+    rng = common.rng_for(seed, PROP, 7300 + sh)
+    W = scen.World(binpath)
+    res = common.Result()
+    slow = pipeline.make_node(rng, W, 0, ["ed0"], nsteps=1)
+    slow["layout"]["inspect"] = [scen.mk_inspection("wait", ["sh", "-c", "sleep 4"], [["ALLOW", "*"]], [["ALLOW", "*"]])]
+    level = ["top", "sub"][sh % 2]
+    now = datetime.datetime.now(UTC)
+    T = (now + datetime.timedelta(seconds=3)).replace(microsecond=0)
+    if level == "top":
+        b = pipeline.make_node(rng, W, 0, ["ed0"], expires=scen.iso(T))
+    else:
+        b = pipeline.make_node(rng, W, 1, ["ed0"], nsteps=2, delegate_prob=1.0)
+        b["steps"][0]["evidence"][0]["node"]["layout"]["expires"] = scen.iso(T)
+    reqs = []
+    pipeline.collect_requests(slow, reqs)
+    pipeline.collect_requests(b, reqs)
+    wires = scen.sign_all(binpath, reqs, nproc=1)
+    exp_ns = int(T.timestamp()) * 10 ** 9
+    c = scen.verify_case(wires[b["req"]], [[W.kid("ed0"), W.pub("ed0")]], pipeline.tree_files(W, b, wires),
+                         meta={"level": level, "text": scen.iso(T), "instant_ns": str(exp_ns), "notation_class": "Z", "frac": False,
+                               "style": "T_Z", "delta_s": 0, "history": "concurrent"})
+    c["not_before_ns"] = str(exp_ns + 400_000_000)
+    c["background"] = {"layout": scen.dumps(wires[slow["req"]]), "files": pipeline.tree_files(W, slow, wires)}
+    o = common.run_batch(binpath, [c])[0]
+    if scen.harness_failed(o):
+        res.inconclusive.append(f"executor failure: {str(o)[:200]}")
+        return res
+    bg = o.get("background") or {}
+    t0 = int(o["runs"][0]["t0"])
+    overlapped = bg.get("v") == "ok" and int(bg["t0"]) < exp_ns and int(bg["t1"]) > int(o["runs"][0]["t1"])
+    out = judge(c, o, res)
+    if out is not None:
+        res.note(["concurrent", c["layout"][:80]], True, cls=[f"concurrent:{x}" for x in out] + [f"concurrent_level:{level}",
+                 "concurrent:other_call_started_before_expiry_and_still_running" if overlapped else "concurrent:no_overlap"])
+    if not overlapped:
+        res.classes["concurrent:set_up_missed"] += 1
+    return res
+
+
 def main(ctx):
     rng = ctx.rng(0)
     plans = []
@@ -291,10 +334,13 @@ def main(ctx):
         res.merge(p)
     for p in common.pmap(history_shard, [(ctx.bin, ctx.seed, s) for s in range(4 if not ctx.thorough else n)]):
         res.merge(p)
+    for p in common.pmap(concurrent_runs, [(ctx.bin, ctx.seed, s) for s in range(2 if not ctx.thorough else n)]):
+        res.merge(p)
     res.extras["exhaustive_subspaces"] = [f"{len(OFFSETS)} offset notations x {{-1h,+1h,-40s,+40s}} x {{top-level, delegated}}"]
     res.extras["limit"] = ("verification time is the real clock; 'all verification times' is covered by sweeping the "
                            "expiry against it (the comparison is symmetric in the two instants)")
-    req = ["top:expired", "top:unexpired_ok", "sub:expired", "sub:unexpired_ok", "notation:offset:expired",
+    req = ["sub_layout_without_steps:expired", "sub_layout_without_steps:unexpired_ok", "concurrent:expired",
+           "concurrent:other_call_started_before_expiry_and_still_running", "top:expired", "top:unexpired_ok", "sub:expired", "sub:unexpired_ok", "notation:offset:expired",
            "notation:offset:unexpired_ok", "notation:zero-offset:expired", "notation:Z:expired", "notation:Z:unexpired_ok",
            "fractional:expired", "fractional:unexpired_ok", "history:after:bad_signature:expired", "history:after:success:expired",
            "history:after:expired_long_ago:expired", "history:after:same_document_while_valid:expired", "sub_layout_next_to_other_evidence:expired", "sub_layout_next_to_other_evidence:unexpired_ok", "summary_name_given:expired", "summary_name_given:unexpired_ok", "process_environment:SOURCE_DATE_EPOCH:expired", "process_environment:SOURCE_DATE_EPOCH:unexpired_ok", "process_time_zone:west_of_utc:expired", "process_time_zone:west_of_utc:unexpired_ok",
